@@ -693,6 +693,13 @@ def unjson(ops):
 
 def run(ctx):
     ctx.prove()
+    # model regenerated from the source of path_based_rp.py on this run + proofs that it is Path.v (notes/C06_gen.md)
+    import translate_path as T
+    ctx.gen_step("path", T.translate, "C06_gen",
+                 "harness/translate_path.py (ast -> Gallina printer for check_arc / check_route / add_route / get_num_variables / "
+                 "get_math_program_data / get_objective_data / get_constraint_data of PathBasedRoutingProblem: assignments, "
+                 "if/else, for loops with early return, try/except KeyError, list / dict subscripts, the numpy calls of the "
+                 "cover matrix) and the combinator definitions of coq/theories/PyPath.v it prints into")
     rng = ctx.rng
     n_cases = 390 if ctx.quick else 6000
     ex_len = 5 if ctx.quick else 6
